@@ -336,13 +336,8 @@ def sym_sklearn(c, n, nq, K, cls_order, cost, fitfn):
     order = [classes.index(v) for v in cs]
     Cs = [[Cx[order[a]][order[b]] for b in range(K)] for a in range(K)]
     pred = clf.predict(Xq)
-    if present:
-        _decision_obligations(c, pred, rp, cs, Cs, nq, "sklearn")
-    else:
-        # not fitted: predictions are drawn from the (uniform) fallback distribution: members of classes_
-        pr = list(arrays.raw(arrays.asnd(pred)))
-        for v in pr:
-            c.prove(any(float(v) == cv for cv in cs) if not core.is_sym(v) else False, "sklearn:predict_returns_member_of_classes")
+    # (also when the estimator was not fitted: the decision is taken on the fallback probabilities)
+    _decision_obligations(c, pred, rp, cs, Cs, nq, "sklearn")
     c.witness(0 < len(present) < K, "estimator_saw_fewer_classes")
     c.witness(not present, "no_labels")
 
@@ -357,14 +352,12 @@ def replay_sklearn(inputs, label, n, nq, K, cls_order, cost, fitfn):
     cs = sorted(classes)
     present = sorted({classes[k] for k in idx if k >= 0})
     for table in ([(row, p) for _, row, p in inputs.get("__clf__", [])], []):
-        for seed in [int(inputs.get("seed", 0))] + list(range(6)):
+        for seed in [int(inputs.get("seed", 0))] + list(range(12)):
             clf = SklearnClassifier(real_table_estimator(table), classes=classes, cost_matrix=C, random_state=seed)
             getattr(clf, fitfn)(np.arange(n, dtype=float).reshape(n, 1), y)
             P = clf.predict_proba(Xq)
             pred = clf.predict(Xq)
             bad = _conc_bad(P, None, pred, clf.classes_, cs, classes, C, nq, K, "sklearn")
-            if not present:
-                bad.discard("sklearn:predict_minimises_expected_cost")
             if label in bad:
                 return True, (f"SklearnClassifier(<estimator>, classes={classes}, cost_matrix={None if C is None else C.tolist()})."
                               f"{fitfn}(y={y.tolist()}); X_query={Xq.ravel().tolist()}: proba={np.round(P, 4).tolist()} "
@@ -462,6 +455,19 @@ def sc_unfittable(d, n, nq, K, cls_order, fitfn):
     y = d.arr([NAN if k < 0 else classes[k] for k in idx])
     X = d.arr([[float(i)] for i in range(n)], shape=(n, 1))
     seed = d.integer("seed", 0, 2 ** 31 - 2)
+    if not d.sym and not getattr(d, "_seed_sweep", False):
+        # concrete replay: a decision that depends on a random draw shows under some seeds only
+        d._seed_sweep = True
+        try:
+            for sd in [seed] + list(range(12)):
+                d._forced_seed = sd
+                sc_unfittable(d, n, nq, K, cls_order, fitfn)
+        finally:
+            d._seed_sweep = False
+            d._forced_seed = None
+        return
+    if not d.sym and getattr(d, "_forced_seed", None) is not None:
+        seed = d._forced_seed
     clf = SklearnClassifier(Unfittable(), classes=classes, random_state=seed)
     try:
         getattr(clf, fitfn)(X, y)
@@ -490,11 +496,18 @@ def sc_unfittable(d, n, nq, K, cls_order, fitfn):
         for k in range(K):
             want = counts[k] / tot if tot else 1.0 / K
             d.prove(d.eq(flat[i * K + k], want, 1e-12), "unfittable:proba_is_label_frequency", info=dict(cls=cs[k], counts=counts))
+    best = max(counts) if tot else 0
     for v in d.flat(pred):
         ok = False
-        for cv in cs:
-            ok = core.b_or(ok, d.eq(v, cv)) if d.sym else (ok or bool(v == cv))
+        opt = False
+        for k, cv in enumerate(cs):
+            hit = d.eq(v, cv) if d.sym else bool(v == cv)
+            ok = core.b_or(ok, hit) if d.sym else (ok or hit)
+            if counts[k] == best:
+                opt = core.b_or(opt, hit) if d.sym else (opt or hit)
         d.prove(ok, "unfittable:predict_returns_member_of_classes")
+        # the most probable class under the fallback probabilities (any class without labels)
+        d.prove(opt, "unfittable:predict_is_a_most_frequent_class", info=dict(counts=counts))
     d.witness(0 < tot and counts[-1] == 0, "last_class_unobserved")
     d.witness(tot == 0, "no_labels")
 
